@@ -3,10 +3,10 @@ CONSTANTS
   MaxDepth = 2
   MaxNodes = 2
   MaxInj = 2
-  HSets <- HSetsSmall
-  CMs = {"no", "sup"}
-  Kinds = {"try", "tf", "with", "loop", "seq"}
-  Leaves = {"raise", "reraise", "ret", "brk", "cnt", "quiet"}
+  HSets <- HSetsOne
+  CMs = {"no"}
+  Kinds = {"try", "tf", "seq"}
+  Leaves = {"raise", "reraise", "ret"}
   RaiseCls = {"A"}
   Outers = {FALSE, TRUE}
   Dump = TRUE
